@@ -721,10 +721,7 @@ func hasCancelOp(p *CallPlan) bool {
 func (w *World) rec(o *CallObs, rcv bool, r OpRec) {
 	r.End = stepsNow(w.S)
 	r.EndT = time.Now()
-	r.DownRead = -1
-	if ex := o.Call.Exchange(); ex != nil {
-		r.DownRead = ex.Down.ReadOffset()
-	}
+	r.DownRead = o.Call.DownReadOffset()
 	if rcv {
 		o.OpsRcv = append(o.OpsRcv, r)
 	} else {
